@@ -972,3 +972,43 @@ func sortedKeys[V any](m map[string]V) []string {
 	sort.Strings(ks)
 	return ks
 }
+
+// mapReserve applies the allocation policy to the size hint of make(map[K]V, n): the runtime allocates buckets
+// for n entries up front.
+func (in *Interp) mapReserve(v value, unsigned bool, entrySize int64, pos string) {
+	t, ok := v.(*Term)
+	if !ok {
+		if n := asInt64(v); n > 0 && n*entrySize > 1<<28 && in.cfg.AllocPolicy {
+			in.recordViolation(nil, "alloc", "allocation sized by input: "+pos, fmt.Sprintf("map with a size hint of %d entries", n))
+			abort(abViolation, "alloc policy")
+		}
+		return
+	}
+	if !in.cfg.AllocPolicy {
+		return
+	}
+	t64 := t
+	if t.sort.W < 64 {
+		if unsigned {
+			t64 = mkZext(t, 64-t.sort.W)
+		} else {
+			t64 = mkSext(t, 64-t.sort.W)
+		}
+	}
+	// the runtime ignores hints that are negative or overflow; hints up to 2^40 entries are honoured
+	lim := in.allocLimit() / entrySize
+	over := mkAnd(mkNot(mkBvCmp(opBvUle, t64, mkBV(64, uint64(lim)))), mkBvCmp(opBvUle, t64, mkBV(64, 1<<26)))
+	if in.branch(over) {
+		big := mkBvCmp(opBvUle, mkBV(64, uint64((64<<20)/entrySize)), t64)
+		sv := in.solver
+		sv.push()
+		sv.assert(big)
+		rb := sv.check()
+		sv.pop(1)
+		if rb == resSat {
+			in.assume(big, false)
+		}
+		in.recordViolation(nil, "alloc", "allocation sized by input: "+pos, fmt.Sprintf("make(map) with a size hint taken from the input (more than %d bytes)", in.allocLimit()))
+		abort(abViolation, "alloc policy")
+	}
+}
